@@ -39,6 +39,27 @@ class DomRoles(object):
                     objs.setdefault(v.cls.name, v)
         return objs
 
+    def content_slot(self):
+        """Name of the instance attribute that backs the ``content`` property of the content sections (read off the
+        property's getter: ``return self.<slot>``), whatever it is called."""
+        if getattr(self, '_content_slot', None) is None:
+            import ast as _ast
+            found = set()
+            for n in SECTION_CLASSES:
+                for c in self.classes[n].repo_mro():
+                    pr = c.props.get('content')
+                    if pr and pr.get('get') is not None:
+                        g = pr['get']
+                        me = g.params()[0] if g.params() else 'self'
+                        for x in _ast.walk(g.node):
+                            if isinstance(x, _ast.Return) and isinstance(x.value, _ast.Attribute) and isinstance(x.value.value, _ast.Name) \
+                                    and x.value.value.id == me:
+                                found.add(x.value.attr)
+            if len(found) != 1:
+                raise AnalysisError('backing attribute of the content property not identified (candidates %s)' % sorted(found))
+            self._content_slot = found.pop()
+        return self._content_slot
+
     def settable_names(self, cls):
         """Attribute names with a descriptor or property setter in the MRO."""
         out = []
